@@ -80,7 +80,7 @@ var behaviours = []behaviour{
 func TestProp_ContainedAndClassified(t *testing.T) {
 	dir := t.TempDir()
 	rapid.Check(t, func(rt *rapid.T) {
-		mode := rapid.SampledFrom([]string{"users", "users", "constant"}).Draw(rt, "mode")
+		mode := rapid.SampledFrom([]string{"users", "users", "constant", "file"}).Draw(rt, "mode")
 		conc := rapid.IntRange(1, 8).Draw(rt, "concurrency")
 		n := rapid.IntRange(5, 200).Draw(rt, "iterations")
 		// plan: iteration id -> behaviour index (cycled list); biased so that passes follow failures
@@ -108,6 +108,10 @@ func TestProp_ContainedAndClassified(t *testing.T) {
 				}
 				lastOnHandle[it] = b
 				mu.Unlock()
+				if mode == "file" && id%2 == 1 {
+					// iterations of the first config-file stage are still running when the second stage starts
+					time.Sleep(45 * time.Millisecond)
+				}
 				b.Do(it)
 			}
 		}
@@ -116,7 +120,16 @@ func TestProp_ContainedAndClassified(t *testing.T) {
 			flags["rate"] = fmt.Sprintf("%d/5ms", rapid.IntRange(1, 4*conc).Draw(rt, "perTick"))
 			flags["distribution"] = "none"
 		}
-		spec := &vlib.RunSpec{Mode: mode, Flags: flags, FileDir: dir, ScenarioFn: scenario, WaitTimeout: 20 * time.Second}
+		yaml := ""
+		if mode == "file" {
+			if n > 60 {
+				n = 60
+			}
+			yaml = fmt.Sprintf("scenario: %s\nlimits:\n  max-duration: 10s\n  concurrency: %d\n  max-iterations: %d\n  ignore-dropped: true\nstages:\n"+
+				"- duration: 100ms\n  mode: users\n  concurrency: %d\n- duration: 100ms\n  mode: constant\n  rate: %d/10ms\n  jitter: 0\n  distribution: none\n- duration: 10s\n  mode: users\n  concurrency: %d\n",
+				vlib.ScenarioName, conc, n, conc, conc, conc)
+		}
+		spec := &vlib.RunSpec{Mode: mode, Flags: flags, FileYAML: yaml, FileDir: dir, ScenarioFn: scenario, WaitTimeout: 20 * time.Second}
 		spec.Opts.Concurrency = conc
 		spec.Opts.MaxDuration = 10 * time.Second
 		spec.Opts.MaxIterations = uint64(n)
